@@ -136,18 +136,6 @@ where
         }
     }
 
-//@ item src/graph_impl/stable_graph/mod.rs | impl<N, E, Ty, Ix> StableGraph<N, E, Ty, Ix> where Ty: EdgeType, Ix: IndexType | fn get_node
-    // Return the Node if it is not vacant (non-None weight)
-    fn get_node(&self, a: NodeIndex<Ix>) -> (r: Option<&Node<Option<N>, Ix>>)
-        /*+*/ensures r is Some <==> nlive(self.ns(), a.i()), r is Some ==> *r.unwrap() == self.ns()[a.i()]/*-*/   // [get_node_some_iff_live]
-    {
-        self.g
-            .nodes
-            .get(a.index())
-            .and_then(|node/*+*/: &Node<Option<N>, Ix>/*-*/| /*+*/-> (q: Option<&Node<Option<N>, Ix>>) ensures q is Some <==> node.weight is Some, q is Some ==> *q.unwrap() == *node {/*-*/ node.weight.as_ref().map(move |/*R:D10 _ */ _w /*-*/ /*+*/: &N/*-*/| /*+*/-> (p: &Node<Option<N>, Ix>) ensures *p == *node {/*-*/ node /*+*/}/*-*/) /*+*/}/*-*/)
-    }
-//@ end
-
 //@ item src/graph_impl/stable_graph/mod.rs | impl<N, E, Ty, Ix> StableGraph<N, E, Ty, Ix> where Ty: EdgeType, Ix: IndexType | fn neighbors
     pub fn neighbors(&self, a: NodeIndex<Ix>) -> (r: Neighbors<E, Ix>)
         /*+*/requires self.wf()
